@@ -376,7 +376,7 @@ def gen_e2e(ctx: Ctx):
             evs.append(_ev(uid, True, pid, rng.choice([3, 4]), rng.randint(0, 30), rng.choice([1, 1, 2, 3, 5, 12])))
             uid += 1
     rng.shuffle(evs)
-    return {"mode": mode, "e2e": True, "events": evs}
+    return {"mode": mode, "e2e": True, "events": evs, "ext": rng.random() < 0.3, "split": rng.random() < 0.3}
 
 
 def oracle_e2e(case, res):
@@ -405,6 +405,9 @@ def oracle_e2e(case, res):
                 return ("overlap-merge", f"final JSON lane {L} holds slices of the input lanes {sorted(map(str, froms))}"), "e2e_ok"
     else:
         ins = {e[0]: mk_event(e) for e in case["events"]}
+        if case.get("split") and len(case["events"]) >= 2:
+            for o in ins.values():
+                o["pid"] = mk_event(case["events"][0])["pid"]
     cnt = {}
     for e in out:
         u = e["args"]["uid"]
@@ -431,8 +434,20 @@ def run_e2e(case):
     if case.get("torch"):
         extra = [x for x in extra if x not in ("--flow", "-M")]
         return stage.e2e(([] if case["mode"] == "tid" else ["-O", "drop"]) + extra, {"in.json": torch_file(case)})
-    return stage.e2e(([] if case["mode"] == "tid" else ["-O", "drop"]) + extra,
-                     {"in.json": [mk_event(e) for e in case["events"]]})
+    evs = [mk_event(e) for e in case["events"]]
+    if case.get("ext"):
+        # host slices as a framework profiler writes them into a flex-style file (they carry its "External id")
+        for e in evs:
+            if e["ph"] == "X":
+                e["args"]["External id"] = 100 + e["args"]["uid"]
+    files = {"in.json": evs}
+    if case.get("split") and len(evs) >= 2:
+        # two job files of ONE rank feeding the same (pid, tid) lanes: every pid of the second file is that of the first
+        p0 = evs[0]["pid"]
+        for e in evs:
+            e["pid"] = p0
+        files = {"a.json": evs[0::2], "b.json": evs[1::2]}
+    return stage.e2e(([] if case["mode"] == "tid" else ["-O", "drop"]) + extra, files)
 
 
 def gen_cases(ctx: Ctx):
